@@ -269,7 +269,7 @@ func main() {
 		}
 	}
 	// ---- attestation payloads as the contract builds them
-	ral, err := csrc.LoadRalph("/repo/alephium/contracts/token_bridge/token_bridge.ral", "/repo/alephium/contracts/token_bridge/token_bridge_constants.ral")
+	ral, err := csrc.LoadRalph(vlib.Repo()+"/alephium/contracts/token_bridge/token_bridge.ral", vlib.Repo()+"/alephium/contracts/token_bridge/token_bridge_constants.ral")
 	if err != nil || !ral.HasFunc("attestToken") {
 		r.Inconclusive(fmt.Sprintf("token_bridge.ral attestToken not loadable: %v", err))
 	} else {
